@@ -18,7 +18,8 @@ Both flavours (`list` and `threadSafeList`) run this code; the thread-safe one w
 one `RWMutex` (sequentially invisible — except `PushBackList(self)`, see design/C10.md).
 
 Totalised corners (never reached from well-formed states, see `WF` in Hive/Proofs/DList.lean):
-dereferencing `nil` reads node 0 instead of panicking; `len` is a `Nat`.
+dereferencing `nil` reads node 0 instead of panicking.  `len` is an `Int` as in Go (a `Remove` with a
+handle that was live before an `Init` makes it negative; the `i > 0` loops of the whole-list pushes then do not run).
 Core Lean only.
 -/
 namespace Hive.DList
@@ -42,7 +43,7 @@ def root (l : Bool) : Nat := if l then 2 else 1
 
 structure St where
   heap : Heap
-  len : Bool → Nat
+  len : Bool → Int
   fresh : Nat
   seq : Bool → List Nat   -- ghost
   stale : List Nat        -- ghost
@@ -165,10 +166,10 @@ def step (s : St) : Op → St × Out
     (if !owned s e l || e == m || !owned s m l then s else move s l e m, .ok)
   | .pushBackList l o =>
     let s := lazyInit s l
-    (pblLoop l (s.len o) (front s o) s, .ok)
+    (pblLoop l (s.len o).toNat (front s o) s, .ok)
   | .pushFrontList l o =>
     let s := lazyInit s l
-    (pflLoop l (s.len o) (back s o) s, .ok)
+    (pflLoop l (s.len o).toNat (back s o) s, .ok)
   | .init l => (initL s l, .ok)
 
 def run (s : St) : List Op → St × List Out
@@ -221,7 +222,16 @@ def parseOp : List String → Option Op
   | ["init", l] => do some (.init (← parseL l))
   | _ => none
 
-def showId (i : Nat) : String := if i = 0 then "-" else toString i
+/-- `-` = `nil`; `?` = a sentinel (reachable as a "handle" only on a ring corrupted by a stale handle; the
+harness has no name for it). -/
+def showId (i : Nat) : String := if i = 0 then "-" else if i < 3 then "?" else toString i
+
+/-- The step bound of every traversal of the harness: `4·(elements ever created) + 8`. -/
+def bound (s : St) : Nat := 4 * (s.fresh - 3) + 8
+
+/-- A bounded walk as the harness prints it: `cycle` when more than `bound` elements were met (possible only on
+a ring corrupted by a stale handle; on `WF` states the walk has at most `fresh` elements, `values_eq`). -/
+def showWalk (s : St) (xs : List Nat) : String := if xs.length > bound s then "cycle" else showNatList xs
 
 def showOut : Out → String
   | .handle e => s!"h {e}"
@@ -230,7 +240,7 @@ def showOut : Out → String
   | .ok => "ok"
 
 def showList (s : St) (l : Bool) : String :=
-  s!"{s.len l} f={showId (front s l)} b={showId (back s l)} {showNatList (values s l)} {showNatList (valuesRev s l)}"
+  s!"{s.len l} f={showId (front s l)} b={showId (back s l)} {showWalk s (walkF s (bound s + 1) (front s l))} {showWalk s (walkB s (bound s + 1) (back s l))}"
 
 def showHandles (s : St) : String :=
   " ".intercalate ((List.range (s.fresh - 3)).map fun k =>
